@@ -45,6 +45,14 @@ theorem field_at (fs : List Field) (rest : Bytes) (i w off v : Nat) (hi : i < fs
   rw [hw, hv, hoff] at this
   exact this
 
+/-- variant with the widths given as a closed list, so that offsets are closed terms -/
+theorem field_at' (fs : List Field) (ws : List Nat) (hws : fs.map (·.1) = ws) (rest : Bytes) (i w off v : Nat)
+    (hi : i < fs.length) (hw : fs[i].1 = w) (hv : fs[i].2 = v) (hoff : (ws.take i).sum = off) (hb : v < 256 ^ w) :
+    rd w ((encFields fs ++ rest).drop off) = v := by
+  apply field_at fs rest i w off v hi hw hv _ hb
+  unfold offsetOf
+  rw [← hoff, ← hws, List.map_take]
+
 /-! ### two's complement round trips -/
 
 theorem toSigned_ofSigned32 (v : Int) (h1 : -(2 ^ 31 : Int) ≤ v) (h2 : v < 2 ^ 31) :
@@ -154,8 +162,16 @@ theorem b2n_lt (b : Bool) : b2n b < 256 ^ 1 := by cases b <;> decide
 
 theorem b2n_ne_zero (b : Bool) : (b2n b != 0) = b := by cases b <;> rfl
 
+def controlWidths : List Nat :=
+  [8, 4, 4, 4, 4, 8, 8, 8, 4, 4, 1, 7, 4, 4, 4, 4, 4, 4, 4, 4, 4, 4, 8, 4, 4, 4, 4, 8, 8, 4, 4, 8, 8, 1, 3, 4, 1, 3,
+   4, 4, 4, 4, 4, 1, 3, 4, 8, 4, 4, 4, 4, 4, 4, 4, 4, 1, 1, 2, 4, 32]
+
+theorem fields_widths (c : ControlData) : c.fields.map (·.1) = controlWidths := rfl
+
+theorem fields_length (c : ControlData) : c.fields.length = 60 := rfl
+
 theorem body_length (c : ControlData) : c.body.length = 288 := by
-  unfold ControlData.body; rw [encFields_length]; rfl
+  unfold ControlData.body; rw [encFields_length, fields_widths]; decide
 
 theorem encControl_length (c : ControlData) (crc pad : Nat) : (encControl c crc pad).length = 296 + pad := by
   simp [encControl, body_length]; omega
@@ -170,15 +186,14 @@ theorem encControl_crc (c : ControlData) (crc pad : Nat) (h : crc < 2 ^ 32) :
   rw [List.drop_left' (body_length c)]
   exact rd_le 4 crc _ (by omega)
 
-theorem walLevel_name (n : Nat) (h : n ≤ 2) :
-    (if n < Model.walLevelNames.length then Model.walLevelNames.getD n "" else "") = Spec.walLevelNames.getD n "" := by
+theorem walLevel_name (n : Nat) (h : n ≤ 2) : Model.walLevelName n = Spec.walLevelNames.getD n "" := by
   have : n = 0 ∨ n = 1 ∨ n = 2 := by omega
   rcases this with h | h | h <;> subst h <;> rfl
 
 /-- ParseControlFile on the encoding of well-formed control data returns the stored fields -/
 theorem parseControlFile_enc (c : ControlData) (h : c.WF) (crc pad : Nat) (hcrc : crc < 2 ^ 32) :
     ∃ f, Model.parseControlFile (encControl c crc pad) = .ok (some f) ∧ f.toView = viewControl c crc := by
-  obtain ⟨_, _, _, ⟨hs1, hs2⟩, _, _, hredo, _, _, _, _, _, _, _, _, _, _, _, ⟨ht1, ht2⟩, _, _, _, _, _, _, _, _,
+  obtain ⟨_, _, _, ⟨hs1, hs2⟩, _, hckpt, hredo, _, _, _, _, _, _, _, _, _, _, _, ⟨ht1, ht2⟩, _, _, _, _, _, _, _, _,
     hwl, hmc, hmw, hms, hmp, hml, _, _, hblk, ⟨_, _⟩, hxblk, hseg, _, _, _, _, _, _⟩ := h
   have hblk' : c.blcksz ≠ 0 ∧ c.blcksz < 2 ^ 32 := by
     simp [legalBlockSizes] at hblk; omega
@@ -193,104 +208,103 @@ theorem parseControlFile_enc (c : ControlData) (h : c.WF) (crc pad : Nat) (hcrc 
     omega
   have hlen := encControl_length c crc pad
   have f0 : rd 8 ((encControl c crc pad).drop 0) = c.systemIdentifier :=
-    field_at c.fields _ 0 8 0 _ (by decide) rfl rfl rfl (by omega)
+    field_at' c.fields controlWidths (fields_widths c) _ 0 8 0 _ (by rw [fields_length]; decide) rfl rfl (by decide) (by omega)
   have f8 : rd 4 ((encControl c crc pad).drop 8) = c.pgControlVersion :=
-    field_at c.fields _ 1 4 8 _ (by decide) rfl rfl rfl (by omega)
+    field_at' c.fields controlWidths (fields_widths c) _ 1 4 8 _ (by rw [fields_length]; decide) rfl rfl (by decide) (by omega)
   have f12 : rd 4 ((encControl c crc pad).drop 12) = c.catalogVersionNo :=
-    field_at c.fields _ 2 4 12 _ (by decide) rfl rfl rfl (by omega)
+    field_at' c.fields controlWidths (fields_widths c) _ 2 4 12 _ (by rw [fields_length]; decide) rfl rfl (by decide) (by omega)
   have f16 : rd 4 ((encControl c crc pad).drop 16) = ofSigned 32 c.state :=
-    field_at c.fields _ 3 4 16 _ (by decide) rfl rfl rfl (ofSigned32_lt _)
+    field_at' c.fields controlWidths (fields_widths c) _ 3 4 16 _ (by rw [fields_length]; decide) rfl rfl (by decide) (ofSigned32_lt _)
   have f32 : rd 8 ((encControl c crc pad).drop 32) = c.checkPoint :=
-    field_at c.fields _ 6 8 32 _ (by decide) rfl rfl rfl (by omega)
+    field_at' c.fields controlWidths (fields_widths c) _ 6 8 32 _ (by rw [fields_length]; decide) rfl rfl (by decide) (by omega)
   have f40 : rd 8 ((encControl c crc pad).drop 40) = c.redo :=
-    field_at c.fields _ 7 8 40 _ (by decide) rfl rfl rfl (by omega)
+    field_at' c.fields controlWidths (fields_widths c) _ 7 8 40 _ (by rw [fields_length]; decide) rfl rfl (by decide) (by omega)
   have f48 : rd 4 ((encControl c crc pad).drop 48) = c.thisTLI :=
-    field_at c.fields _ 8 4 48 _ (by decide) rfl rfl rfl (by omega)
+    field_at' c.fields controlWidths (fields_widths c) _ 8 4 48 _ (by rw [fields_length]; decide) rfl rfl (by decide) (by omega)
   have f52 : rd 4 ((encControl c crc pad).drop 52) = c.prevTLI :=
-    field_at c.fields _ 9 4 52 _ (by decide) rfl rfl rfl (by omega)
+    field_at' c.fields controlWidths (fields_widths c) _ 9 4 52 _ (by rw [fields_length]; decide) rfl rfl (by decide) (by omega)
   have f56 : rd 1 ((encControl c crc pad).drop 56) = b2n c.fullPageWrites :=
-    field_at c.fields _ 10 1 56 _ (by decide) rfl rfl rfl (b2n_lt _)
+    field_at' c.fields controlWidths (fields_widths c) _ 10 1 56 _ (by rw [fields_length]; decide) rfl rfl (by decide) (b2n_lt _)
   have f64 : rd 4 ((encControl c crc pad).drop 64) = c.nextXid :=
-    field_at c.fields _ 12 4 64 _ (by decide) rfl rfl rfl (by omega)
+    field_at' c.fields controlWidths (fields_widths c) _ 12 4 64 _ (by rw [fields_length]; decide) rfl rfl (by decide) (by omega)
   have f68 : rd 4 ((encControl c crc pad).drop 68) = c.nextXidEpoch :=
-    field_at c.fields _ 13 4 68 _ (by decide) rfl rfl rfl (by omega)
+    field_at' c.fields controlWidths (fields_widths c) _ 13 4 68 _ (by rw [fields_length]; decide) rfl rfl (by decide) (by omega)
   have f72 : rd 4 ((encControl c crc pad).drop 72) = c.nextOid :=
-    field_at c.fields _ 14 4 72 _ (by decide) rfl rfl rfl (by omega)
+    field_at' c.fields controlWidths (fields_widths c) _ 14 4 72 _ (by rw [fields_length]; decide) rfl rfl (by decide) (by omega)
   have f76 : rd 4 ((encControl c crc pad).drop 76) = c.nextMulti :=
-    field_at c.fields _ 15 4 76 _ (by decide) rfl rfl rfl (by omega)
+    field_at' c.fields controlWidths (fields_widths c) _ 15 4 76 _ (by rw [fields_length]; decide) rfl rfl (by decide) (by omega)
   have f80 : rd 4 ((encControl c crc pad).drop 80) = c.nextMultiOffset :=
-    field_at c.fields _ 16 4 80 _ (by decide) rfl rfl rfl (by omega)
+    field_at' c.fields controlWidths (fields_widths c) _ 16 4 80 _ (by rw [fields_length]; decide) rfl rfl (by decide) (by omega)
   have f84 : rd 4 ((encControl c crc pad).drop 84) = c.oldestXid :=
-    field_at c.fields _ 17 4 84 _ (by decide) rfl rfl rfl (by omega)
+    field_at' c.fields controlWidths (fields_widths c) _ 17 4 84 _ (by rw [fields_length]; decide) rfl rfl (by decide) (by omega)
   have f88 : rd 4 ((encControl c crc pad).drop 88) = c.oldestXidDB :=
-    field_at c.fields _ 18 4 88 _ (by decide) rfl rfl rfl (by omega)
+    field_at' c.fields controlWidths (fields_widths c) _ 18 4 88 _ (by rw [fields_length]; decide) rfl rfl (by decide) (by omega)
   have f92 : rd 4 ((encControl c crc pad).drop 92) = c.oldestMulti :=
-    field_at c.fields _ 19 4 92 _ (by decide) rfl rfl rfl (by omega)
+    field_at' c.fields controlWidths (fields_widths c) _ 19 4 92 _ (by rw [fields_length]; decide) rfl rfl (by decide) (by omega)
   have f96 : rd 4 ((encControl c crc pad).drop 96) = c.oldestMultiDB :=
-    field_at c.fields _ 20 4 96 _ (by decide) rfl rfl rfl (by omega)
+    field_at' c.fields controlWidths (fields_widths c) _ 20 4 96 _ (by rw [fields_length]; decide) rfl rfl (by decide) (by omega)
   have f104 : rd 8 ((encControl c crc pad).drop 104) = ofSigned 64 c.cpTime :=
-    field_at c.fields _ 22 8 104 _ (by decide) rfl rfl rfl (ofSigned64_lt _)
+    field_at' c.fields controlWidths (fields_widths c) _ 22 8 104 _ (by rw [fields_length]; decide) rfl rfl (by decide) (ofSigned64_lt _)
   have f112 : rd 4 ((encControl c crc pad).drop 112) = c.oldestCommitTsXid :=
-    field_at c.fields _ 23 4 112 _ (by decide) rfl rfl rfl (by omega)
+    field_at' c.fields controlWidths (fields_widths c) _ 23 4 112 _ (by rw [fields_length]; decide) rfl rfl (by decide) (by omega)
   have f116 : rd 4 ((encControl c crc pad).drop 116) = c.newestCommitTsXid :=
-    field_at c.fields _ 24 4 116 _ (by decide) rfl rfl rfl (by omega)
+    field_at' c.fields controlWidths (fields_widths c) _ 24 4 116 _ (by rw [fields_length]; decide) rfl rfl (by decide) (by omega)
   have f120 : rd 4 ((encControl c crc pad).drop 120) = c.oldestActiveXid :=
-    field_at c.fields _ 25 4 120 _ (by decide) rfl rfl rfl (by omega)
+    field_at' c.fields controlWidths (fields_widths c) _ 25 4 120 _ (by rw [fields_length]; decide) rfl rfl (by decide) (by omega)
   have f172 : rd 4 ((encControl c crc pad).drop 172) = c.walLevel :=
-    field_at c.fields _ 35 4 172 _ (by decide) rfl rfl rfl (by omega)
+    field_at' c.fields controlWidths (fields_widths c) _ 35 4 172 _ (by rw [fields_length]; decide) rfl rfl (by decide) (by omega)
   have f176 : rd 1 ((encControl c crc pad).drop 176) = b2n c.walLogHints :=
-    field_at c.fields _ 36 1 176 _ (by decide) rfl rfl rfl (b2n_lt _)
+    field_at' c.fields controlWidths (fields_widths c) _ 36 1 176 _ (by rw [fields_length]; decide) rfl rfl (by decide) (b2n_lt _)
   have f180 : rd 4 ((encControl c crc pad).drop 180) = c.maxConnections :=
-    field_at c.fields _ 38 4 180 _ (by decide) rfl rfl rfl (by omega)
+    field_at' c.fields controlWidths (fields_widths c) _ 38 4 180 _ (by rw [fields_length]; decide) rfl rfl (by decide) (by omega)
   have f184 : rd 4 ((encControl c crc pad).drop 184) = c.maxWorkerProcesses :=
-    field_at c.fields _ 39 4 184 _ (by decide) rfl rfl rfl (by omega)
+    field_at' c.fields controlWidths (fields_widths c) _ 39 4 184 _ (by rw [fields_length]; decide) rfl rfl (by decide) (by omega)
   have f188 : rd 4 ((encControl c crc pad).drop 188) = c.maxWalSenders :=
-    field_at c.fields _ 40 4 188 _ (by decide) rfl rfl rfl (by omega)
+    field_at' c.fields controlWidths (fields_widths c) _ 40 4 188 _ (by rw [fields_length]; decide) rfl rfl (by decide) (by omega)
   have f192 : rd 4 ((encControl c crc pad).drop 192) = c.maxPreparedXacts :=
-    field_at c.fields _ 41 4 192 _ (by decide) rfl rfl rfl (by omega)
+    field_at' c.fields controlWidths (fields_widths c) _ 41 4 192 _ (by rw [fields_length]; decide) rfl rfl (by decide) (by omega)
   have f196 : rd 4 ((encControl c crc pad).drop 196) = c.maxLocksPerXact :=
-    field_at c.fields _ 42 4 196 _ (by decide) rfl rfl rfl (by omega)
+    field_at' c.fields controlWidths (fields_widths c) _ 42 4 196 _ (by rw [fields_length]; decide) rfl rfl (by decide) (by omega)
   have f200 : rd 1 ((encControl c crc pad).drop 200) = b2n c.trackCommitTimestamp :=
-    field_at c.fields _ 43 1 200 _ (by decide) rfl rfl rfl (b2n_lt _)
+    field_at' c.fields controlWidths (fields_widths c) _ 43 1 200 _ (by rw [fields_length]; decide) rfl rfl (by decide) (b2n_lt _)
   have f204 : rd 4 ((encControl c crc pad).drop 204) = c.maxAlign :=
-    field_at c.fields _ 45 4 204 _ (by decide) rfl rfl rfl (by omega)
+    field_at' c.fields controlWidths (fields_widths c) _ 45 4 204 _ (by rw [fields_length]; decide) rfl rfl (by decide) (by omega)
   have f208 : rd 8 ((encControl c crc pad).drop 208) = c.floatFormat :=
-    field_at c.fields _ 46 8 208 _ (by decide) rfl rfl rfl (by omega)
+    field_at' c.fields controlWidths (fields_widths c) _ 46 8 208 _ (by rw [fields_length]; decide) rfl rfl (by decide) (by omega)
   have f216 : rd 4 ((encControl c crc pad).drop 216) = c.blcksz :=
-    field_at c.fields _ 47 4 216 _ (by decide) rfl rfl rfl (by omega)
+    field_at' c.fields controlWidths (fields_widths c) _ 47 4 216 _ (by rw [fields_length]; decide) rfl rfl (by decide) (by omega)
   have f220 : rd 4 ((encControl c crc pad).drop 220) = c.relsegSize :=
-    field_at c.fields _ 48 4 220 _ (by decide) rfl rfl rfl (by omega)
+    field_at' c.fields controlWidths (fields_widths c) _ 48 4 220 _ (by rw [fields_length]; decide) rfl rfl (by decide) (by omega)
   have f224 : rd 4 ((encControl c crc pad).drop 224) = c.xlogBlcksz :=
-    field_at c.fields _ 49 4 224 _ (by decide) rfl rfl rfl (by omega)
+    field_at' c.fields controlWidths (fields_widths c) _ 49 4 224 _ (by rw [fields_length]; decide) rfl rfl (by decide) (by omega)
   have f228 : rd 4 ((encControl c crc pad).drop 228) = c.xlogSegSize :=
-    field_at c.fields _ 50 4 228 _ (by decide) rfl rfl rfl (by omega)
+    field_at' c.fields controlWidths (fields_widths c) _ 50 4 228 _ (by rw [fields_length]; decide) rfl rfl (by decide) (by omega)
   have f232 : rd 4 ((encControl c crc pad).drop 232) = c.nameDataLen :=
-    field_at c.fields _ 51 4 232 _ (by decide) rfl rfl rfl (by omega)
+    field_at' c.fields controlWidths (fields_widths c) _ 51 4 232 _ (by rw [fields_length]; decide) rfl rfl (by decide) (by omega)
   have f236 : rd 4 ((encControl c crc pad).drop 236) = c.indexMaxKeys :=
-    field_at c.fields _ 52 4 236 _ (by decide) rfl rfl rfl (by omega)
+    field_at' c.fields controlWidths (fields_widths c) _ 52 4 236 _ (by rw [fields_length]; decide) rfl rfl (by decide) (by omega)
   have f240 : rd 4 ((encControl c crc pad).drop 240) = c.toastMaxChunkSize :=
-    field_at c.fields _ 53 4 240 _ (by decide) rfl rfl rfl (by omega)
+    field_at' c.fields controlWidths (fields_widths c) _ 53 4 240 _ (by rw [fields_length]; decide) rfl rfl (by decide) (by omega)
   have f244 : rd 4 ((encControl c crc pad).drop 244) = c.loblksize :=
-    field_at c.fields _ 54 4 244 _ (by decide) rfl rfl rfl (by omega)
+    field_at' c.fields controlWidths (fields_widths c) _ 54 4 244 _ (by rw [fields_length]; decide) rfl rfl (by decide) (by omega)
   have f252 : rd 4 ((encControl c crc pad).drop 252) = c.dataChecksumVersion :=
-    field_at c.fields _ 58 4 252 _ (by decide) rfl rfl rfl (by omega)
+    field_at' c.fields controlWidths (fields_widths c) _ 58 4 252 _ (by rw [fields_length]; decide) rfl rfl (by decide) (by omega)
   have fcrc := encControl_crc c crc pad hcrc
   have ftake := encControl_take c crc pad
   unfold Model.parseControlFile
   rw [if_neg (by omega)]
-  simp (disch := omega) only [uN_ok, sliceTo_ok, ok_bind, pure_eq_ok, bind_pure_comp, Functor.map, Except.map]
+  simp (disch := omega) only [uN_ok, sliceTo_ok, ok_bind, pure_eq_ok]
   simp only [f0, f8, f12, f16, f32, f40, f48, f52, f56, f64, f68, f72, f76, f80, f84, f88, f92, f96, f104, f112, f116, f120,
     f172, f176, f180, f184, f188, f192, f196, f200, f204, f208, f216, f220, f224, f228, f232, f236, f240, f244, f252,
     fcrc, ftake, if_neg hblk'.1, if_neg hxblk'.1, if_neg hseg'.1]
   rw [formatWALFilename_eq _ _ _ hredo hseg]
   simp only [ok_bind]
   rw [if_pos (by omega)]
-  simp only [ok_bind, pure_eq_ok]
+  simp only [ok_bind]
   refine ⟨_, rfl, ?_⟩
   simp only [Model.ControlFile.toView, viewControl, toSigned_ofSigned32 _ hs1 hs2, toSigned_ofSigned64 _ ht1 ht2,
-    dbStateString_eq, formatLSN_eq _ (by assumption), b2n_ne_zero, walLevel_name _ hwl,
+    dbStateString_eq, formatLSN_eq _ hckpt, formatLSN_eq _ hredo, b2n_ne_zero, walLevel_name _ hwl,
     toSigned32_nat _ hmc, toSigned32_nat _ hmw, toSigned32_nat _ hms, toSigned32_nat _ hmp, toSigned32_nat _ hml,
     verifyCRC32C_eq, Model.floatIs1234567, floatFormatBits]
-  rfl
 
 end PgVerif.Proofs
